@@ -33,8 +33,13 @@ LIGHT = bool(os.environ.get("VF_LIGHT"))    # development on a busy machine: lit
 
 def concretise(case, rng, k):
     ck = []
+    long_ = case["n"] > 4
     for i, c in enumerate(case["kind"]):
         pool = OK if c == "ok" else (S1 if c == "s1" else S2)
+        if long_:
+            # the long history: no tickets (a dozen of them fill the accumulator and demand a tickets mark,
+            # which the builder does not make) and no bad-slot recipes (siblings would be one and the same block)
+            pool = [r for r in pool if r not in ("okticket", "badslot", "badslot0")]
         pick = pool[(k + i * 7 + rng.n(len(pool))) % len(pool)]
         p = case["parent"][i]
         if c == "ok" and (i + 1) in case["parent"] and (k + i) % 2 == 0:
@@ -48,7 +53,7 @@ def concretise(case, rng, k):
         ck.append(pick)
     out = {"id": k, "n": case["n"], "parent": case["parent"], "ckind": ck, "seq": case["seq"],
            "expect": case["expect"], "tau0": rng.pick(TAU0), "anc": case["anc"], "gap": 0, "gapat": 0}
-    if rng.n(4) == 0:
+    if not long_ and rng.n(4) == 0:
         out["gap"], out["gapat"] = rng.pick([12, 12, 24]), 1 + rng.n(case["n"])
     return out
 
@@ -96,12 +101,13 @@ def model_check(ctx):
 def generate(ctx):
     """Returns list of abstract scenarios (dicts) from NodeImport_Gen."""
     base = {"MaxInvalid": 2, "MaxOps": 0, "MaxRuns": 1, "Mode": '"rollback_head"', "Seed": ctx.seed % 997}
-    # (N, MaxLen, Keep, Core)
-    plans = ([(2, 4, 12, "FALSE"), (3, 4, 160, "TRUE")] if ctx.quick
-             else [(2, 5, 2, "TRUE"), (3, 5, 12, "TRUE"), (4, 5, 200, "TRUE")])
+    # (N, MaxLen, Keep, Core, LongN, LongK)
+    plans = ([(2, 4, 12, "FALSE", 13, 14), (3, 4, 160, "TRUE", 0, 0)] if ctx.quick
+             else [(2, 5, 2, "TRUE", 13, 14), (3, 5, 12, "TRUE", 20, 9), (4, 5, 200, "TRUE", 0, 0)])
+
     def one(plan):
-        n, maxlen, keep, core = plan
-        c = dict(base, N=n, MaxLen=maxlen, Keep=keep, Core=core)
+        n, maxlen, keep, core, longn, longk = plan
+        c = dict(base, N=n, MaxLen=maxlen, Keep=keep, Core=core, LongN=longn, LongK=longk)
         p = vf.gen_cases(ctx, "NodeImport_Gen", c, outfile="cases-%d.ndjson" % n, timeout=1500, heap="8g", tag="-%d" % n)
         return [json.loads(x) for x in vf.read_lines(p)]
     with cf.ThreadPoolExecutor(1 if LIGHT else len(plans)) as ex:
